@@ -39,6 +39,7 @@ QUADS = {
     'Q_nondyadic': (0.1 + 0.1j, 0.4 + 0.9j, 0.8 + 0.2j),
     'Q_closed_loop': (0j, 3 + 4j, 0j),
     'Q_almost_line': (0j, 2.00002 + 1.00001j, 4 + 2j),      # straight, traversed almost uniformly (|a| ~ 4e-5)
+    'Q_uneven_legs': (0j, 2 - 0.1j, 22 + 35j),              # legs 2 : 40 - very non-uniform speed, sharp bend right after the start
 }
 
 CUBICS = {
@@ -58,6 +59,7 @@ CUBICS = {
     'C_nondyadic': (0.1 + 0.3j, 0.5 + 1.1j, 1.3 + 0.9j, 1.7 - 0.2j),
     'C_axis_line_shaped': (0j, 1 + 0j, 2 + 0j, 3 + 0j),
     'C_nearly_quadratic': (0j, 2.000001 + 4j, 4 + 4j, 6 + 0j),   # leading coefficient 3e-6 (tiny but significant)
+    'C_uneven_legs': (0j, 1.5 + 0j, 2 + 0.25j, 30 + 40j),        # legs 1.5 : 0.56 : 49
 }
 
 # (start, radius, rotation, large_arc, sweep, end)
@@ -74,6 +76,7 @@ ARCS = {
     'A_negative_radius': (0j, -3 - 2j, -725, 1, 1, 2 + 3j),
     'A_rot180_large': (2 + 0j, 2 + 1j, 180, 1, 1, -1j),       # rotation an odd multiple of 180: not the unrotated ellipse's frame
     'A_rot360': (0j, 3 + 1j, 360, 0, 1, 4 + 1j),
+    'A_nearly_circular': (0j, 2 + 2.000006j, 0, 1, 1, 2 + 2j),   # radii differ by 3e-6 relative: an ellipse, not a circle
 }
 
 
